@@ -73,6 +73,8 @@ if exe:
             env = {'LBZIP2_VERIF_CHECK': '1', 'LBZIP2_VERIF_DELAY': sc}
             if rng.random() < 0.3:
                 env['LBZIP2_VERIF_OUT_GRANUL'] = str(rng.choice([64, 4096]))
+            if rng.random() < 0.4:
+                env['LBZIP2_VERIF_OUT_SLOTS'] = str(rng.choice([3, 4]))
             n = rng.choice([2, 2, 3, 4])
             jobs.append(dict(exe=exe, args=['-d', '-n%d' % n], data=data,
                              env=env, timeout=120))
